@@ -172,6 +172,10 @@ class SimHarness(HarnessBase):
                 elif op[0] == 'reinit':
                     self._set_init(gu, last, th0, om0)
                     M.motor.pwm = rec['pwm_before']
+                elif op[0] == 'reinit_other':
+                    # after a reset the user starts a NEW simulation from other initial conditions
+                    self._set_init(gu, last, env.real('th0b'), env.real('om0b'))
+                    M.motor.pwm = rec['pwm_before']
         except (ValueError, TypeError, ZeroDivisionError, KeyError, AttributeError, IndexError, TooManyInstants) as e:
             rec['raised'] = type(e).__name__
             rec['raised_msg'] = str(e)[:120]
@@ -776,6 +780,9 @@ def common_specs(tier, seed, arb=True, locking=True, units=True):
                       units=(('J', 'gcm^2'), ('Tmax', 'mNm'), ('w0', 'rpm')), tag=':units1'))
         S.append(spec('T3', schedule=(('run', 3),), dt_unit='min', init_units=(('pos', 'rot'), ('spd', 'deg/s')),
                       units=(('J', 'kgmm^2'), ('Tmax', 'kgfcm'), ('w0', 'rps'), ('i', 'mA')), tag=':units2'))
+    # run, reset, then a new simulation from OTHER initial conditions on the same objects
+    for t in ['T1'] + (['T4'] if locking else ['T3']):
+        S.append(spec(t, schedule=(('run', 2), ('reset',), ('reinit_other',), ('run', 3)), tag=':reset_other_ic'))
     # the two motor currents given in different units, fractional duty cycles (fixed and arbitrary)
     S.append(spec('T3', schedule=(('run', 3),), control=('fixed', 0.5), units=(('i0u', 'mA'), ('imaxu', 'A')), tag=':mixed_current_units'))
     S.append(spec('T3', schedule=(('run', 2),), control=('arb', -1, 1), units=(('i0u', 'uA'), ('imaxu', 'mA')), tag=':mixed_current_units'))
@@ -811,7 +818,7 @@ BOUNDS = {
     'quick': 'K steps after the initial instant: K=2 with every continuous parameter symbolic (L-full, fixed duty, '
              'non-locking chains T1,T2,T3,T5,T6) ; K<=4 with configuration and dt concrete and initial state, loads '
              '(fresh symbol per call) symbolic (L-state, T1..T7) ; K=2 with an arbitrary duty cycle in [-1,1] per '
-             'instant (T3, T4) ; schedules run(4), run(2)+run(2), run(2)+reset+rerun (same/new Solver), early stop on a fresh run '
+             'instant (T3, T4) ; schedules run(4), run(2)+run(2), run(2)+reset+rerun (same/new Solver, same or other initial conditions), early stop on a fresh run '
              'and during a continuation; chains of 3..8 elements',
     'thorough': 'quick + 44 seeded chains of 2..12 elements (K=3, continuation 2+2), L-full on 5 seeded chains, K=5, 17 unit assignments covering every unit of every input kind, '
                 'continuation 2+3, arbitrary duty on T6/T7',
